@@ -33,6 +33,36 @@ from vf.ref import latticepaths as lp
 from infretis.core import tis
 
 
+def frac_snapshot(st):
+    return {pn: np.array(d["frac"], dtype=float) for pn, d in st.traj_data.items()}
+
+
+def recorded_terms(st, before, B):
+    """What the real treat_output has just added to the live paths' accumulated weights ('frac', the
+    numbers that end up in the data file), turned into the terms of the running estimate a user
+    computes from that file: for ensemble [i+], sum of frac/weight over its paths (den) and over those
+    that reach lambda_{i+1} (num)."""
+    lam = lat.interfaces(B)
+    out = [[0.0, 0.0] for _ in range(B - 1)]
+    for pn, d in st.traj_data.items():
+        inc = np.array(d["frac"], dtype=float) - before.get(pn, 0.0)
+        wts = d["weights"]
+        if len(wts) == 1:
+            continue  # a [0-] path
+        for i in range(B - 1):
+            x = float(inc[1 + i])
+            if x == 0.0:
+                continue
+            w = float(wts[i])
+            if not w > 0:
+                out[i][1] = float("nan")  # weight recorded for a path that has none in this ensemble
+                continue
+            out[i][1] += x / w
+            if d["max_op"][0] >= lam[i + 1]:
+                out[i][0] += x / w
+    return [tuple(t) for t in out]
+
+
 def mkdyn(name, B):
     return lat.SYMMETRIC(B) if name == "sym" else lat.DRIFTED(B)
 
@@ -111,19 +141,7 @@ class Chain:
         old = os.getcwd()
         os.chdir(self.wd)
         try:
-            st0 = self.build_state(s)
-            P = np.array(st0.prob, dtype=float)
-            W = np.array(st0.state, dtype=float)
-            terms = []
-            for i in range(self.B - 1):  # plus ensembles i = 0, 1 ; column i+1
-                num = den = 0.0
-                for k, sites in enumerate(s):
-                    w = W[k][i + 1]
-                    if P[k][i + 1] > 0 and w > 0:
-                        den += P[k][i + 1] / w
-                        if max(sites) >= i + 2:
-                            num += P[k][i + 1] / w
-                terms.append((num, den))
+            terms = [[0.0, 0.0] for _ in range(self.B - 1)]
             # every outcome of the real pick
             picks = []
 
@@ -147,9 +165,12 @@ class Chain:
                 for pk, new in outcomes:
                     if pk == 0:
                         continue
-                    succ = self.apply(s, choices, ens, new)
+                    succ, rec = self.apply(s, choices, ens, new)
                     out[succ] = out.get(succ, 0.0) + pp * pk
-            return out, terms, len(picks)
+                    for i in range(self.B - 1):
+                        terms[i][0] += pp * pk * rec[i][0]
+                        terms[i][1] += pp * pk * rec[i][1]
+            return out, [tuple(t) for t in terms], len(picks)
         finally:
             os.chdir(old)
             l1.deactivate()
@@ -181,8 +202,9 @@ class Chain:
             md["generated"].append(trial.generated)
         md.update({"status": status, "wmd_start": 0.0, "wmd_end": 0.0})
         st.loop()
+        before = frac_snapshot(st)
         st.treat_output(md)
-        return tuple(lat.sites(t) for t in st._trajs[:-1])
+        return tuple(lat.sites(t) for t in st._trajs[:-1]), recorded_terms(st, before, self.B)
 
 
 _CHAIN = {}
@@ -351,7 +373,7 @@ def run_part(ctx):
     for ch in list(_CHAIN.values()) + list(_CHAIN2.values()):
         ch.close()
     ctx.assume("joint chain: B=3, one worker and two workers with first-in-first-out completion (an outcome-independent schedule; states with in-flight jobs are entered through [current].locked + pick_lock); move outcomes come from the exact kernels of part (a) (run_md is a pure function of the job); "
-               "the estimator is the frac/weight ratio the data file encodes; acceptance band = interval between the exact values for L<=M and L<=M-1, widened by its width")
+               "the estimator is the running estimate a user computes from the data file, assembled from the increments the real treat_output adds to the accumulated weights (frac) at every step; acceptance band = interval between the exact values for L<=M and L<=M-1, widened by its width")
     return n
 
 
@@ -471,29 +493,22 @@ class Chain2(Chain):
                         md["generated"].append(trial.generated)
                     md.update({"status": status, "wmd_start": 0.0, "wmd_end": 0.0})
                     st.loop()
+                    before = frac_snapshot(st)
                     st.treat_output(md)
-                    P = np.array(st.prob, dtype=float)
-                    Wm = np.array(st.state, dtype=float)
-                    locks = [int(x) for x in st._locks]
-                    post = tuple(lat.sites(t) for t in st._trajs[:-1])
+                    rec = recorded_terms(st, before, self.B)
                     md2 = st.prep_md_items(md)
                     succ = (tuple(lat.sites(t) for t in st._trajs[:-1]), tuple(newer), tuple(md2["ens_nums"]))
-                    return succ, P, Wm, locks, post
+                    return succ, rec
 
-                for ch, (succ, P, Wm, locks, post) in explore(fn):
+                for ch, (succ, rec) in explore(fn):
                     pp = ch.prob_float()
                     out[succ] = out.get(succ, 0.0) + pk * pp
                     if first:
+                        # what the step records does not depend on the draw that follows it
                         first = False
                         for i in range(self.B - 1):
-                            for k, sites in enumerate(post):
-                                if locks[k]:
-                                    continue  # busy paths are not credited
-                                w = Wm[k][i + 1]
-                                if P[k][i + 1] > 0 and w > 0:
-                                    terms[i][1] += pk * P[k][i + 1] / w
-                                    if max(sites) >= i + 2:
-                                        terms[i][0] += pk * P[k][i + 1] / w
+                            terms[i][0] += pk * rec[i][0]
+                            terms[i][1] += pk * rec[i][1]
             return out, [tuple(t) for t in terms], len(outcomes)
         finally:
             os.chdir(old_cwd)
